@@ -725,15 +725,6 @@ theorem defs_nodup (x : Str → Option Str) (m : Module) (hI : Identity m) : (do
 
 /-! ### "contained in the module, directly or in nested folders" -/
 
-/-- `f.Contains r`: `r` is one of the folder's requirements or contained in one of its sub-folders -/
-inductive Folder.Contains : Folder → Req → Prop
-  | direct {reqs : List Req} {fs : List Folder} {r : Req} : r ∈ reqs → Folder.Contains (.mk reqs fs) r
-  | nested {reqs : List Req} {fs : List Folder} {f : Folder} {r : Req} :
-      f ∈ fs → Folder.Contains f r → Folder.Contains (.mk reqs fs) r
-
-def Module.Contains (m : Module) (r : Req) : Prop :=
-  r ∈ m.reqs ∨ ∃ f ∈ m.folders, f.Contains r
-
 theorem mem_dfsL_of_mem {fs : List Folder} {f : Folder} {r : Req} (hf : f ∈ fs) (hr : r ∈ f.dfs) :
     r ∈ dfsL fs := by
   induction fs with
@@ -780,29 +771,6 @@ theorem Module.mem_dfs_iff (m : Module) (r : Req) : r ∈ m.dfs ↔ m.Contains r
     · exact Or.inr (mem_dfsL_of_mem hf (Folder.mem_dfs_of_contains hc))
 
 /-! ### values can be read back -/
-
-/-- reading an `ATTRIBUTE-VALUE-<kind>` back (what a ReqIF consumer sees) -/
-def Value.decode (k : Kind) (tv : Option Str) (refs : List Str) : Option Value :=
-  match k, tv with
-  | .boolean, some s => if s = "true".toList then some (.bool true) else if s = "false".toList then some (.bool false) else none
-  | .integer, some s => (String.ofList s).toInt?.map .int
-  | .string, some s => some (.string s)
-  | .date, some s => some (.date (some s))
-  | .real, some s => if s = "Infinity".toList then some (.real .posInf)
-      else if s = "-Infinity".toList then some (.real .negInf) else some (.real (.fin s))
-  | .enumeration, none => some (.enum refs)
-  | _, _ => none
-
-/-- values whose export is not a placeholder: a date is present; `str(float)` is not an infinity literal -/
-def Value.Proper : Value → Prop
-  | .date none => False
-  | .real (.fin s) => s ≠ "Infinity".toList ∧ s ≠ "-Infinity".toList
-  | _ => True
-
-/-- the value with the (case-insensitive) enumeration uuids upper-cased, as identifiers are -/
-def Value.upper : Value → Value
-  | .enum vs => .enum (vs.map up)
-  | v => v
 
 theorem Value.decode_render (v : Value) (h : v.Proper) :
     Value.decode v.kind v.render v.enumRefs = some v.upper := by
@@ -855,6 +823,444 @@ theorem export_ok (x : Str → Option Str) (m : Module) (hx : (x emptyDiv).isSom
 theorem export_assertion (x : Str → Option Str) (m : Module) (hE : hasEnumWithoutDef m = true) :
     «export» x m = .error .assertion := by
   simp [«export», errors, hE]
+
+
+/-! ### identifier rendering is injective on uuid-shaped keys -/
+
+theorem append_cons_inj_left {c : Char} : ∀ {a₁ a₂ b₁ b₂ : Str}, c ∉ a₁ → c ∉ a₂ →
+    a₁ ++ c :: b₁ = a₂ ++ c :: b₂ → a₁ = a₂ ∧ b₁ = b₂
+  | [], [], _, _, _, _, h => by simpa using h
+  | [], x :: a₂, _, _, _, h₂, h => by
+    simp only [List.nil_append, List.cons_append, List.cons.injEq] at h
+    exact absurd (h.1 ▸ List.mem_cons_self) h₂
+  | x :: a₁, [], _, _, h₁, _, h => by
+    simp only [List.nil_append, List.cons_append, List.cons.injEq] at h
+    exact absurd (h.1 ▸ List.mem_cons_self) h₁
+  | x :: a₁, y :: a₂, _, _, h₁, h₂, h => by
+    simp only [List.cons_append, List.cons.injEq] at h
+    obtain ⟨rfl, h⟩ := h
+    have := append_cons_inj_left (fun m => h₁ (List.mem_cons_of_mem _ m)) (fun m => h₂ (List.mem_cons_of_mem _ m)) h
+    exact ⟨by rw [this.1], this.2⟩
+
+theorem append_cons_inj_right {c : Char} {a₁ a₂ b₁ b₂ : Str} (h₁ : c ∉ b₁) (h₂ : c ∉ b₂)
+    (h : a₁ ++ c :: b₁ = a₂ ++ c :: b₂) : a₁ = a₂ ∧ b₁ = b₂ := by
+  have := congrArg List.reverse h
+  simp only [List.reverse_append, List.reverse_cons, List.append_assoc, List.singleton_append] at this
+  have := append_cons_inj_left (by simpa using h₁) (by simpa using h₂) this
+  exact ⟨List.reverse_inj.mp this.2, List.reverse_inj.mp this.1⟩
+
+theorem Kind.name_no_dash (k : Kind) : '-' ∉ k.name := by cases k <;> decide
+theorem Kind.name_inj {a b : Kind} (h : a.name = b.name) : a = b := by
+  cases a <;> cases b <;> first | rfl | (exfalso; revert h; decide)
+theorem Kind.name_ne_hier (k : Kind) : k.name ≠ "HIER".toList := by cases k <;> decide
+theorem Kind.name_ne_type (k : Kind) : k.name ≠ "TYPE".toList := by cases k <;> decide
+
+/-- the text a key stands for: the uuid, or the `NULL-…` word -/
+theorem getD_inj {o₁ o₂ : Option Str} {w : Str} (hw : ∃ c ∈ w, hexDash c = false)
+    (h₁ : OptUuidLike o₁) (h₂ : OptUuidLike o₂) (h : o₁.getD w = o₂.getD w) : o₁ = o₂ := by
+  obtain ⟨c, hc, hcf⟩ := hw
+  cases o₁ with
+  | none =>
+    cases o₂ with
+    | none => rfl
+    | some u => simp only [Option.getD_none, Option.getD_some] at h; have := h₂ u rfl c (h ▸ hc); simp [hcf] at this
+  | some u =>
+    cases o₂ with
+    | none => simp only [Option.getD_none, Option.getD_some] at h; have := h₁ u rfl c (h ▸ hc); simp [hcf] at this
+    | some v => simp only [Option.getD_some] at h; rw [h]
+
+theorem getD_no {o : Option Str} {w : Str} {c : Char} (hc : hexDash c = false) (hw : c ∉ w) (h : OptUuidLike o) :
+    c ∉ o.getD w := by
+  cases o with
+  | none => simpa using hw
+  | some u => intro hm; have := h u rfl c hm; simp [hc] at this
+
+
+theorem uuidLike_no {u : Str} {c : Char} (hu : UuidLike u) (hc : hexDash c = false) : c ∉ u := by
+  intro hm; have := hu c hm; simp [hc] at this
+
+/-- two `<X>--<suffix>` texts with dash-free suffixes agree only if both parts agree -/
+theorem dashed_inj {a₁ a₂ b₁ b₂ : Str} (h₁ : '-' ∉ b₁) (h₂ : '-' ∉ b₂)
+    (h : a₁ ++ '-' :: '-' :: b₁ = a₂ ++ '-' :: '-' :: b₂) : a₁ = a₂ ∧ b₁ = b₂ := by
+  have h' : (a₁ ++ ['-']) ++ '-' :: b₁ = (a₂ ++ ['-']) ++ '-' :: b₂ := by simpa using h
+  obtain ⟨ha, hb⟩ := append_cons_inj_right h₁ h₂ h'
+  exact ⟨List.append_cancel_right ha, hb⟩
+
+theorem nullSOT_split : nullSOT = "NULL-SPEC-OBJECT".toList ++ '-' :: "TYPE".toList := by decide
+theorem nullST_split : nullST = "NULL-SPECIFICATION".toList ++ '-' :: "TYPE".toList := by decide
+
+theorem nonhex_nullDT : ∃ c ∈ nullDT, hexDash c = false := ⟨'N', by decide, by decide⟩
+theorem nonhex_nullAD : ∃ c ∈ nullAD, hexDash c = false := ⟨'N', by decide, by decide⟩
+theorem nonhex_nullSOT : ∃ c ∈ nullSOT, hexDash c = false := ⟨'N', by decide, by decide⟩
+theorem nonhex_nullST : ∃ c ∈ nullST, hexDash c = false := ⟨'N', by decide, by decide⟩
+
+/-- `<R>-ReqIF.<n>` determines `R` and `n` when `R` has no `R` -/
+theorem reqif_inj {r₁ r₂ n₁ n₂ : Str} (h₁ : 'R' ∉ r₁) (h₂ : 'R' ∉ r₂)
+    (h : r₁ ++ ("-ReqIF.".toList ++ n₁) = r₂ ++ ("-ReqIF.".toList ++ n₂)) : r₁ = r₂ ∧ n₁ = n₂ := by
+  have h' : (r₁ ++ ['-']) ++ 'R' :: ("eqIF.".toList ++ n₁) = (r₂ ++ ['-']) ++ 'R' :: ("eqIF.".toList ++ n₂) := by
+    simpa using h
+  have m₁ : 'R' ∉ r₁ ++ ['-'] := by simp [h₁]
+  have m₂ : 'R' ∉ r₂ ++ ['-'] := by simp [h₂]
+  obtain ⟨ha, hb⟩ := append_cons_inj_left m₁ m₂ h'
+  exact ⟨List.append_cancel_right ha, List.append_cancel_left hb⟩
+
+/-- an attribute-definition identifier never starts like a `STD-…` identifier -/
+theorem attrDef_head {ad : Option Str} (h : OptUuidLike ad) (t : Str) (s : Str) :
+    ad.getD nullAD ++ '.' :: t ≠ 'S' :: s := by
+  cases ad with
+  | none =>
+    have : nullAD = 'N' :: "ULL-ATTRIBUTE-DEFINITION".toList := by decide
+    intro e
+    rw [Option.getD_none, this] at e
+    simp only [List.cons_append, List.cons.injEq] at e
+    exact absurd e.1 (by decide)
+  | some u =>
+    cases u with
+    | nil =>
+      intro e
+      simp only [Option.getD_some, List.nil_append, List.cons.injEq] at e
+      exact absurd e.1 (by decide)
+    | cons c u =>
+      intro e
+      simp only [Option.getD_some, List.cons_append, List.cons.injEq] at e
+      have := h _ rfl c List.mem_cons_self
+      rw [e.1] at this
+      revert this; decide
+
+
+theorem Kind.name_nonhex (k : Kind) : ∃ c ∈ k.name, hexDash c = false := by
+  cases k
+  · exact ⟨'O', by decide, by decide⟩
+  · exact ⟨'T', by decide, by decide⟩
+  · exact ⟨'I', by decide, by decide⟩
+  · exact ⟨'R', by decide, by decide⟩
+  · exact ⟨'S', by decide, by decide⟩
+  · exact ⟨'N', by decide, by decide⟩
+  · exact ⟨'X', by decide, by decide⟩
+
+/-- apart from `_<UUID>` every identifier contains a character that no uuid contains -/
+theorem body_not_uuidLike : ∀ i : Ident, (∀ u, i ≠ .obj u) → ∃ c ∈ i.body, hexDash c = false
+  | .obj u, h => absurd rfl (h u)
+  | .hier u, _ => ⟨'H', List.mem_append_right _ (by decide), by decide⟩
+  | .datatype dt k, _ => by
+    obtain ⟨c, hc, hcf⟩ := Kind.name_nonhex k
+    exact ⟨c, List.mem_append_right _ (List.mem_cons_of_mem _ (List.mem_cons_of_mem _ hc)), hcf⟩
+  | .attrDef rt ad k, _ =>
+    ⟨'.', List.mem_append_left _ (List.mem_append_right _ List.mem_cons_self), by decide⟩
+  | .stdDatatype n, _ => ⟨'S', List.mem_append_left _ (by decide), by decide⟩
+  | .stdAttr rt n, _ =>
+    ⟨'S', List.mem_append_left _ (List.mem_append_left _ (List.mem_append_left _ (by decide))), by decide⟩
+  | .stdSpecAttr mt n, _ =>
+    ⟨'S', List.mem_append_left _ (List.mem_append_left _ (List.mem_append_left _ (by decide))), by decide⟩
+  | .nullSpecObjectType, _ => ⟨'N', by decide, by decide⟩
+  | .nullSpecificationType, _ => ⟨'N', by decide, by decide⟩
+
+def Ident.hasDot : Ident → Bool
+  | .attrDef _ _ _ | .stdDatatype _ | .stdAttr _ _ | .stdSpecAttr _ _ => true
+  | _ => false
+
+theorem Kind.name_no_dot (k : Kind) : '.' ∉ k.name := by cases k <;> decide
+
+theorem dot_mem_body : ∀ i : Ident, i.Shaped → ('.' ∈ i.body ↔ i.hasDot = true)
+  | .obj u, h => by
+    have : '.' ∉ u := uuidLike_no (c := '.') (show UuidLike u from h) (by decide)
+    exact ⟨fun h' => absurd h' this, fun h' => by cases h'⟩
+  | .hier u, h => by
+    have h1 : '.' ∉ u := uuidLike_no (c := '.') (show UuidLike u from h) (by decide)
+    have h2 : '.' ∉ "--HIER".toList := by decide
+    refine ⟨fun h' => ?_, fun h' => by cases h'⟩
+    rcases List.mem_append.mp h' with h' | h'
+    · exact absurd h' h1
+    · exact absurd h' h2
+  | .datatype dt k, h => by
+    have h1 := getD_no (w := nullDT) (c := '.') (by decide) (by decide) h
+    have h2 := Kind.name_no_dot k
+    have h3 : '.' ∉ '-' :: '-' :: k.name := by
+      simp only [List.mem_cons, not_or]; exact ⟨by decide, by decide, h2⟩
+    refine ⟨fun h' => ?_, fun h' => by cases h'⟩
+    rcases List.mem_append.mp h' with h' | h'
+    · exact absurd h' h1
+    · exact absurd h' h3
+  | .attrDef rt ad k, _ =>
+    ⟨fun _ => rfl, fun _ => List.mem_append_left _ (List.mem_append_right _ List.mem_cons_self)⟩
+  | .stdDatatype n, _ => ⟨fun _ => rfl, fun _ => List.mem_append_left _ (by decide)⟩
+  | .stdAttr rt n, _ =>
+    ⟨fun _ => rfl, fun _ => List.mem_append_left _ (List.mem_append_right _ (by decide))⟩
+  | .stdSpecAttr mt n, _ =>
+    ⟨fun _ => rfl, fun _ => List.mem_append_left _ (List.mem_append_right _ (by decide))⟩
+  | .nullSpecObjectType, _ => by decide
+  | .nullSpecificationType, _ => by decide
+
+
+
+theorem hier_split (u : Str) : (Ident.hier u).body = (u ++ ['-']) ++ '-' :: "HIER".toList := by
+  show u ++ "--HIER".toList = _
+  rw [List.append_assoc]; rfl
+
+theorem datatype_split (d : Option Str) (k : Kind) :
+    (Ident.datatype d k).body = (d.getD nullDT ++ ['-']) ++ '-' :: k.name := by
+  show _ ++ '-' :: '-' :: k.name = _
+  rw [List.append_assoc]; rfl
+
+theorem attrDef_split (r a : Option Str) (k : Kind) :
+    (Ident.attrDef r a k).body = a.getD nullAD ++ '.' :: (r.getD nullSOT ++ '-' :: '-' :: k.name) := by
+  show (_ ++ _) ++ _ = _
+  rw [List.append_assoc]; rfl
+
+theorem stdDatatype_head (n : Str) : ∃ s, (Ident.stdDatatype n).body = 'S' :: s := ⟨_, rfl⟩
+theorem stdAttr_head (r : Option Str) (n : Str) : ∃ s, (Ident.stdAttr r n).body = 'S' :: s := ⟨_, rfl⟩
+theorem stdSpecAttr_head (r : Option Str) (n : Str) : ∃ s, (Ident.stdSpecAttr r n).body = 'S' :: s := ⟨_, rfl⟩
+
+theorem nullSOT_body : Ident.nullSpecObjectType.body = "NULL-SPEC-OBJECT".toList ++ '-' :: "TYPE".toList :=
+  nullSOT_split
+theorem nullST_body : Ident.nullSpecificationType.body = "NULL-SPECIFICATION".toList ++ '-' :: "TYPE".toList :=
+  nullST_split
+
+
+theorem stdDatatype_5 (n : Str) : ∃ s, (Ident.stdDatatype n).body = 'S' :: 'T' :: 'D' :: '-' :: 'D' :: s := ⟨_, rfl⟩
+theorem stdAttr_5 (r : Option Str) (n : Str) :
+    ∃ s, (Ident.stdAttr r n).body = 'S' :: 'T' :: 'D' :: '-' :: 'A' :: s := ⟨_, rfl⟩
+theorem stdSpecAttr_5 (r : Option Str) (n : Str) :
+    ∃ s, (Ident.stdSpecAttr r n).body = 'S' :: 'T' :: 'D' :: '-' :: 'S' :: s := ⟨_, rfl⟩
+
+
+theorem obj_body_ne {u : Str} {j : Ident} (hb : (Ident.obj u).body = j.body) (hu : UuidLike u)
+    (hj : ∀ v, j ≠ .obj v) : False := by
+  obtain ⟨c, hc, hcf⟩ := body_not_uuidLike j hj
+  rw [← hb] at hc
+  have := hu c hc
+  rw [hcf] at this
+  cases this
+
+/-- Two shaped identifiers with the same text are the same identifier. -/
+theorem render_inj {i j : Ident} (hi : i.Shaped) (hj : j.Shaped) (h : i.render = j.render) : i = j := by
+  have hb : i.body = j.body := by
+    simp only [Ident.render, List.cons.injEq, true_and] at h
+    exact h
+  have hdot : i.hasDot = j.hasDot := by
+    have h1 := dot_mem_body i hi
+    have h2 := dot_mem_body j hj
+    rw [hb] at h1
+    cases hi' : i.hasDot <;> cases hj' : j.hasDot <;> simp_all
+  cases i <;> cases j
+  -- same constructor
+  case obj.obj u v => exact congrArg _ hb
+  case hier.hier u v => exact congrArg _ (List.append_cancel_right hb)
+  case datatype.datatype d₁ k₁ d₂ k₂ =>
+    obtain ⟨hd, hk⟩ := dashed_inj (Kind.name_no_dash k₁) (Kind.name_no_dash k₂) hb
+    rw [getD_inj nonhex_nullDT hi hj hd, Kind.name_inj hk]
+  case attrDef.attrDef r₁ a₁ k₁ r₂ a₂ k₂ =>
+    have hb' : (a₁.getD nullAD ++ '.' :: r₁.getD nullSOT) ++ '-' :: '-' :: k₁.name
+        = (a₂.getD nullAD ++ '.' :: r₂.getD nullSOT) ++ '-' :: '-' :: k₂.name := hb
+    obtain ⟨hl, hk⟩ := dashed_inj (Kind.name_no_dash k₁) (Kind.name_no_dash k₂) hb'
+    obtain ⟨ha, hr⟩ := append_cons_inj_left
+      (getD_no (c := '.') (by decide) (by decide) hi.2) (getD_no (c := '.') (by decide) (by decide) hj.2) hl
+    rw [getD_inj nonhex_nullAD hi.2 hj.2 ha, getD_inj nonhex_nullSOT hi.1 hj.1 hr, Kind.name_inj hk]
+  case stdDatatype.stdDatatype n₁ n₂ => exact congrArg _ (List.append_cancel_left hb)
+  case stdAttr.stdAttr r₁ n₁ r₂ n₂ =>
+    have hb' : (("STD-ATTRIBUTE-".toList ++ r₁.getD nullSOT) ++ "-ReqIF.".toList) ++ n₁
+        = (("STD-ATTRIBUTE-".toList ++ r₂.getD nullSOT) ++ "-ReqIF.".toList) ++ n₂ := hb
+    rw [List.append_assoc, List.append_assoc, List.append_assoc, List.append_assoc] at hb'
+    obtain ⟨hr, hn⟩ := reqif_inj (getD_no (c := 'R') (by decide) (by decide) hi)
+      (getD_no (c := 'R') (by decide) (by decide) hj) (List.append_cancel_left hb')
+    rw [getD_inj nonhex_nullSOT hi hj hr, hn]
+  case stdSpecAttr.stdSpecAttr r₁ n₁ r₂ n₂ =>
+    have hb' : (("STD-SPECIFICATION-ATTRIBUTE-".toList ++ r₁.getD nullST) ++ "-ReqIF.".toList) ++ n₁
+        = (("STD-SPECIFICATION-ATTRIBUTE-".toList ++ r₂.getD nullST) ++ "-ReqIF.".toList) ++ n₂ := hb
+    rw [List.append_assoc, List.append_assoc, List.append_assoc, List.append_assoc] at hb'
+    obtain ⟨hr, hn⟩ := reqif_inj (getD_no (c := 'R') (by decide) (by decide) hi)
+      (getD_no (c := 'R') (by decide) (by decide) hj) (List.append_cancel_left hb')
+    rw [getD_inj nonhex_nullST hi hj hr, hn]
+  case nullSpecObjectType.nullSpecObjectType => rfl
+  case nullSpecificationType.nullSpecificationType => rfl
+  -- `<X>--<suffix>` against each other and against the NULL type words
+  case hier.datatype u d k =>
+    exact absurd (dashed_inj (by decide) (Kind.name_no_dash k) hb).2.symm (Kind.name_ne_hier k)
+  case datatype.hier d k u =>
+    exact absurd (dashed_inj (Kind.name_no_dash k) (by decide) hb).2 (Kind.name_ne_hier k)
+  case hier.nullSpecObjectType u =>
+    rw [hier_split, nullSOT_body] at hb
+    exact absurd (append_cons_inj_right (by decide) (by decide) hb).2 (by decide)
+  case nullSpecObjectType.hier u =>
+    rw [hier_split, nullSOT_body] at hb
+    exact absurd (append_cons_inj_right (by decide) (by decide) hb).2 (by decide)
+  case hier.nullSpecificationType u =>
+    rw [hier_split, nullST_body] at hb
+    exact absurd (append_cons_inj_right (by decide) (by decide) hb).2 (by decide)
+  case nullSpecificationType.hier u =>
+    rw [hier_split, nullST_body] at hb
+    exact absurd (append_cons_inj_right (by decide) (by decide) hb).2 (by decide)
+  case datatype.nullSpecObjectType d k =>
+    rw [datatype_split, nullSOT_body] at hb
+    exact absurd (append_cons_inj_right (Kind.name_no_dash k) (by decide) hb).2 (Kind.name_ne_type k)
+  case nullSpecObjectType.datatype d k =>
+    rw [datatype_split, nullSOT_body] at hb
+    exact absurd (append_cons_inj_right (by decide) (Kind.name_no_dash k) hb).2.symm (Kind.name_ne_type k)
+  case datatype.nullSpecificationType d k =>
+    rw [datatype_split, nullST_body] at hb
+    exact absurd (append_cons_inj_right (Kind.name_no_dash k) (by decide) hb).2 (Kind.name_ne_type k)
+  case nullSpecificationType.datatype d k =>
+    rw [datatype_split, nullST_body] at hb
+    exact absurd (append_cons_inj_right (by decide) (Kind.name_no_dash k) hb).2.symm (Kind.name_ne_type k)
+  case nullSpecObjectType.nullSpecificationType => exact absurd hb (by decide)
+  case nullSpecificationType.nullSpecObjectType => exact absurd hb (by decide)
+  -- identifiers with a dot: attribute definitions never start with `S`, the `STD-…` prefixes differ
+  case attrDef.stdDatatype r a k n =>
+    obtain ⟨t, ht⟩ := stdDatatype_head n
+    rw [attrDef_split, ht] at hb
+    exact absurd hb (attrDef_head hi.2 _ _)
+  case stdDatatype.attrDef n r a k =>
+    obtain ⟨t, ht⟩ := stdDatatype_head n
+    rw [attrDef_split, ht] at hb
+    exact absurd hb.symm (attrDef_head hj.2 _ _)
+  case attrDef.stdAttr r a k r' n =>
+    obtain ⟨t, ht⟩ := stdAttr_head r' n
+    rw [attrDef_split, ht] at hb
+    exact absurd hb (attrDef_head hi.2 _ _)
+  case stdAttr.attrDef r' n r a k =>
+    obtain ⟨t, ht⟩ := stdAttr_head r' n
+    rw [attrDef_split, ht] at hb
+    exact absurd hb.symm (attrDef_head hj.2 _ _)
+  case attrDef.stdSpecAttr r a k r' n =>
+    obtain ⟨t, ht⟩ := stdSpecAttr_head r' n
+    rw [attrDef_split, ht] at hb
+    exact absurd hb (attrDef_head hi.2 _ _)
+  case stdSpecAttr.attrDef r' n r a k =>
+    obtain ⟨t, ht⟩ := stdSpecAttr_head r' n
+    rw [attrDef_split, ht] at hb
+    exact absurd hb.symm (attrDef_head hj.2 _ _)
+  case stdDatatype.stdAttr n r n' =>
+    obtain ⟨s₁, h₁⟩ := stdDatatype_5 n; obtain ⟨s₂, h₂⟩ := stdAttr_5 r n'
+    rw [h₁, h₂] at hb; simp only [List.cons.injEq] at hb; exact absurd hb.2.2.2.2.1 (by decide)
+  case stdAttr.stdDatatype r n' n =>
+    obtain ⟨s₁, h₁⟩ := stdDatatype_5 n; obtain ⟨s₂, h₂⟩ := stdAttr_5 r n'
+    rw [h₁, h₂] at hb; simp only [List.cons.injEq] at hb; exact absurd hb.2.2.2.2.1 (by decide)
+  case stdDatatype.stdSpecAttr n r n' =>
+    obtain ⟨s₁, h₁⟩ := stdDatatype_5 n; obtain ⟨s₂, h₂⟩ := stdSpecAttr_5 r n'
+    rw [h₁, h₂] at hb; simp only [List.cons.injEq] at hb; exact absurd hb.2.2.2.2.1 (by decide)
+  case stdSpecAttr.stdDatatype r n' n =>
+    obtain ⟨s₁, h₁⟩ := stdDatatype_5 n; obtain ⟨s₂, h₂⟩ := stdSpecAttr_5 r n'
+    rw [h₁, h₂] at hb; simp only [List.cons.injEq] at hb; exact absurd hb.2.2.2.2.1 (by decide)
+  case stdAttr.stdSpecAttr r n r' n' =>
+    obtain ⟨s₁, h₁⟩ := stdAttr_5 r n; obtain ⟨s₂, h₂⟩ := stdSpecAttr_5 r' n'
+    rw [h₁, h₂] at hb; simp only [List.cons.injEq] at hb; exact absurd hb.2.2.2.2.1 (by decide)
+  case stdSpecAttr.stdAttr r' n' r n =>
+    obtain ⟨s₁, h₁⟩ := stdAttr_5 r n; obtain ⟨s₂, h₂⟩ := stdSpecAttr_5 r' n'
+    rw [h₁, h₂] at hb; simp only [List.cons.injEq] at hb; exact absurd hb.2.2.2.2.1 (by decide)
+  -- the rest: exactly one side has a dot, or exactly one side is a bare `_<UUID>`
+  all_goals first
+    | (simp [Ident.hasDot] at hdot; done)
+    | exact (obj_body_ne hb hi (fun v e => by cases e)).elim
+    | exact (obj_body_ne hb.symm hj (fun v e => by cases e)).elim
+
+
+theorem collected_subset_dfs {m : Module} {r : Req} (h : r ∈ collected m) : r ∈ m.dfs := by
+  have := mem_of_mem_dedupBy h
+  rwa [collectL_eq_dfsL] at this
+
+theorem exists_req_of_reqType {m : Module} {t : Option ReqType} (h : t ∈ reqTypes m) :
+    ∃ r ∈ m.dfs, r.type = t := by
+  have := mem_of_mem_dedupBy h
+  simp only [List.mem_map] at this
+  obtain ⟨r, hr, rfl⟩ := this
+  exact ⟨r, collected_subset_dfs hr, rfl⟩
+
+theorem rtOf_shaped {m : Module} (hS : UuidShaped m) {t : Option ReqType} (h : t ∈ reqTypes m) :
+    OptUuidLike (rtOf t) := by
+  obtain ⟨r, hr, rfl⟩ := exists_req_of_reqType h
+  intro s hs
+  cases ht : r.type with
+  | none => simp [rtOf, ht] at hs
+  | some τ =>
+    simp only [rtOf, ht, Option.map_some, Option.some.injEq] at hs
+    exact hs ▸ hS.reqType r hr τ ht
+
+theorem adKey_shaped {m : Module} (hS : UuidShaped m) {k : ADKey} (h : k ∈ allAdefs m) :
+    OptUuidLike (k.1.map (fun d => up d.uuid)) ∧ OptUuidLike (dtUuid k.1) ∧
+    ∀ v ∈ ((dtOf k.1).map (·.values)).getD [], UuidLike (up v.uuid) := by
+  obtain ⟨r, hr, a, ha, rfl⟩ := exists_attr_of_mem_allAdefs h
+  simp only [adKey]
+  cases hd : a.defn with
+  | none => exact ⟨fun s hs => by simp at hs, fun s hs => by simp [dtUuid, dtOf] at hs, by simp [dtOf]⟩
+  | some d =>
+    have hdm := defn_mem_allDefs hr ha hd
+    refine ⟨fun s hs => ?_, ?_⟩
+    · simp only [Option.map_some, Option.some.injEq] at hs
+      exact hs ▸ hS.defn d hdm
+    · cases hdt : d.dataType with
+      | none => exact ⟨fun s hs => by simp [dtUuid, dtOf, hdt] at hs, by simp [dtOf, hdt]⟩
+      | some t =>
+        have htm : t ∈ allDataTypes m := by
+          simp only [allDataTypes, List.mem_filterMap]
+          exact ⟨d, hdm, hdt⟩
+        refine ⟨fun s hs => ?_, ?_⟩
+        · simp only [dtUuid, dtOf, Option.bind_some, hdt, Option.map_some, Option.some.injEq] at hs
+          exact hs ▸ (hS.dataType t htm).1
+        · simpa [dtOf, hdt] using (hS.dataType t htm).2
+
+theorem defsU_shaped (m : Module) (hS : UuidShaped m) : ∀ i ∈ defsU m, i.Shaped := by
+  intro i hi
+  simp only [defsU, List.mem_cons, List.mem_append, List.mem_flatMap, List.mem_map] at hi
+  rcases hi with rfl | (((⟨d, hd | hd, hi⟩ | ⟨_, ⟨t, ht, rfl⟩, hi⟩) | hi) | ⟨r, hr, rfl⟩) | rfl | ⟨r, hr, rfl⟩
+  · exact hS.model
+  · obtain ⟨n, hn⟩ := stdDatatypes_key d hd
+    have hv : d.values = none := by
+      simp only [stdDatatypes, List.mem_map] at hd
+      obtain ⟨x, _, rfl⟩ := hd
+      rfl
+    simp only [DatatypeEl.ids, hn, hv, DtKey.ident, Option.getD_none, List.map_nil, List.mem_singleton] at hi
+    subst hi; trivial
+  · have := mem_of_mem_dedupBy hd
+    simp only [List.mem_map] at this
+    obtain ⟨k, hk, rfl⟩ := this
+    obtain ⟨_, h2, h3⟩ := adKey_shaped hS hk
+    simp only [DatatypeEl.ids, datatypeEl, DtKey.ident, List.mem_cons, List.mem_map] at hi
+    rcases hi with rfl | ⟨v, hv, rfl⟩
+    · exact h2
+    · cases hk1 : k.1 with
+      | none => simp [hk1] at hv
+      | some dd =>
+        simp only [hk1] at hv h3
+        split at hv
+        · simp only [Option.getD_some, List.mem_map] at hv
+          obtain ⟨ev, hev, rfl⟩ := hv
+          exact h3 ev hev
+        · simp at hv
+  · have hrt := rtOf_shaped hS ht
+    simp only [SpecTypeEl.ids, specObjectType, List.mem_cons, List.mem_append, List.mem_map] at hi
+    rcases hi with rfl | ⟨x, _, rfl⟩ | ⟨_, ⟨k, hk, rfl⟩, rfl⟩
+    · cases h : rtOf t with
+      | none => simp [sotIdent, Ident.Shaped]
+      | some u => simpa [sotIdent, Ident.Shaped] using hrt u h
+    · exact hrt
+    · refine ⟨hrt, (adKey_shaped hS ?_).1⟩
+      simp only [allAdefs, List.mem_flatMap]
+      exact ⟨t, ht, hk⟩
+  · have hmt : OptUuidLike (mtOf m) := by
+      intro s hs
+      cases ht : m.type with
+      | none => simp [mtOf, ht] at hs
+      | some τ =>
+        simp only [mtOf, ht, Option.map_some, Option.some.injEq] at hs
+        exact hs ▸ hS.moduleType τ ht
+    simp only [SpecificationTypeEl.ids, specificationType, List.mem_cons, List.mem_map] at hi
+    rcases hi with rfl | ⟨x, _, rfl⟩
+    · cases h : mtOf m with
+      | none => simp [stIdent, Ident.Shaped]
+      | some u => simpa [stIdent, Ident.Shaped] using hmt u h
+    · exact hmt
+  · exact hS.req r hr
+  · exact hS.module
+  · exact hS.req r hr
+
+/-- all identifiers of the exported document are pairwise distinct as strings -/
+theorem rendered_defs_nodup (x : Str → Option Str) (m : Module) (hI : Identity m) (hS : UuidShaped m) :
+    ((doc x m).defs.map Ident.render).Nodup := by
+  refine nodup_map_of_inj (defs_nodup x m hI) ?_
+  intro a ha b hb e
+  have h1 := defsU_shaped m hS a ((defs_perm x m).mem_iff.mp ha)
+  have h2 := defsU_shaped m hS b ((defs_perm x m).mem_iff.mp hb)
+  exact render_inj h1 h2 e
 
 
 end Capella.Reqif
